@@ -24,6 +24,9 @@ def specs(tier):
                 if len(wl) == 1 and rounds in (1, None) and tier == 'quick':
                     continue
                 out.append({'mech': 'aim', 'eps': eps, 'delta': delta, 'rounds': rounds, 'workload': [list(c) for c in wl]})
+        # AIM with a size limit so small that the first rounds admit only one-way candidates, and AIM given an explicit generator
+        out.append({'mech': 'aim', 'eps': eps, 'delta': delta, 'rounds': 12, 'workload': [list(c) for c in PAIRS], 'max_model_size': 3e-4, 'sizes': [4, 4, 4]})
+        out.append({'mech': 'aim', 'eps': eps, 'delta': delta, 'rounds': 4, 'workload': [['A', 'B'], ['B', 'C']], 'prng': 'np.random'})
         mw = itertools.product(['gaussian', 'laplace'], [False, True], [1, 2] if tier == 'quick' else [1, 2, 3], [0.9] if tier == 'quick' else [0.9, 0.5])
         for noise, bounded, rounds, alpha in mw:
             if tier == 'thorough' and alpha == 0.5 and rounds != 2:
@@ -47,13 +50,18 @@ def jobs(tier, seed):
             dss = ['conc6']
         if tier == 'thorough' and spec['mech'] in ('aim', 'mwem'):
             dss = ['conc6', 'spread20'] if not spec.get('bounded') else ['conc6', 'single']
+        if 'sizes' in spec:
+            dss = ['spread20']
         for ds in dss:
             bound = 1 if tier == 'quick' else 2
             cap = None if tier == 'quick' else (150 if spec['mech'] in ('aim', 'mwem') else 120)
             if spec['mech'] == 'aim' and spec.get('rounds') is None:
                 bound = 0 if tier == 'quick' else 1
                 cap = 60
-            out.append({'spec': spec, 'ds': ds, 'sizes': sizes, 'bound': bound, 'alts': QUICK_ALTS if tier == 'quick' else FULL_ALTS,
+            if 'sizes' in spec:
+                bound = 0 if tier == 'quick' else 1
+                cap = 40
+            out.append({'spec': {k: v for k, v in spec.items() if k != 'sizes'}, 'ds': ds, 'sizes': spec.get('sizes', sizes), 'bound': bound, 'alts': QUICK_ALTS if tier == 'quick' else FULL_ALTS,
                         'seed': seed, 'cap': cap})
     for rounds in ([1, 2, 3, 4, 6] if tier == 'quick' else [1, 2, 3, 4, 6, 8]):
         for wl in [[['A', 'B'], ['B', 'C']], [list(p) for p in PAIRS], [['A', 'B']]]:
